@@ -311,3 +311,194 @@ c03_rule = ("each session defines one side-effect-free function, runs a history 
             "40 statements), then calls it with the same argument from 9 placements (top, twice in an array, for body, inside a generator, argument, call depth 5 and 200, "
             "after a loop in the same statement, operand) and once more at the end; every call must return the specified value, hence equal values; "
             "non-trivial = at least 3 placements present")
+
+
+# =============================================================== C04: lexical scoping and isolation
+
+def pad_locals(n):
+    return [assign("pd" + "".join(chr(97 + int(c)) for c in str(i)), I(i % 9)) for i in range(n)]
+
+
+def c04_access(A, X):
+    if A == "read":
+        return [bin_("+", N(X), I(1))]
+    if A == "write":
+        return [assign(X, I(50))]
+    if A == "rw":
+        return [assign("tt", N(X)), assign(X, bin_("+", N("tt"), I(1)))]
+    return [assign(X, I(60)), bin_("+", N(X), I(1))]
+
+
+def c04_session(ids, K, A, V, flow, width):
+    PROBE = lambda tag, names: wr(bin_("+", St(tag + "="), call("toa", lst([N(n) for n in names]))))
+    items = [assign("gone", I(100)), assign("gtwo", lst([I(1), I(2)])), assign("v", I(5)),
+             DEEP, assign("apply", fn(["fnv"], call("fnv")))]
+    params = ["p"]
+    body = pad_locals(width - 1)
+    if K == "param":
+        X = "p"
+    elif K == "local":
+        X = "x"
+        body.append(assign("x", I(7)))
+    elif K == "forvar":
+        X = "x"
+        body.append(fr(["x"], [call("fromto", I(7), I(8))], I(0)))
+    else:
+        X = "v"                       # shadows the global v
+        body.append(assign("v", I(7)))
+    acc = c04_access(A, X)
+    if V == "direct":
+        body += acc
+    elif V == "closure1":
+        body += [assign("h", fn([], block(acc))), wr(call("toa", call("h")))]
+    elif V == "closure2":
+        # two levels up is not visible: the innermost function sees the global (or nil)
+        body += [assign("h", fn([], block([assign("k", fn([], block(c04_access("read", X)))), call("k")]))),
+                 wr(call("toa", lst([call("h")]))) if K == "shadow" else call("h")]
+    else:   # recursion: every activation has its own X
+        body += [iff(bin_(">", N("p"), I(0)), wr(call("toa", call("ff", bin_("-", N("p"), I(1))))))] + acc
+    body.append(PROBE("in", [X, "gone", "gtwo"]))
+    g = fn([], N(X))
+    if flow == "none":
+        body.append(N(X))
+        use = [call("ff", I(2))]
+    elif flow == "down":
+        body.append(call("apply", g))
+        use = [call("ff", I(2))]
+    elif flow == "up":
+        body += [assign("g", g), assign(X, bin_("+", N(X), I(1000))), N("g")]
+        use = [assign("kk", call("ff", I(2))), call("deep", I(40)), call("kk")]
+    elif flow == "array":
+        body += [assign("g", g), assign(X, bin_("+", N(X), I(1000))), lst([N("g")])]
+        use = [assign("ka", call("ff", I(2))), call("deep", I(40)), assign("kk", ix1(N("ka"), I(0))), call("kk")]
+    elif flow == "nested":
+        body += [assign("g", g), lst([lst([N("g"), I(1)])])]
+        use = [assign("ka", call("ff", I(2))), call("deep", I(40)), assign("kk", ix1(ix1(N("ka"), I(0)), I(0))), call("kk")]
+    else:  # stored
+        body += [g]
+        use = [assign("kk", call("ff", I(2))), call("deep", I(60)), fr(["z"], [call("fromto", I(0), I(3))], N("z")), call("kk"), call("kk")]
+    items.append(assign("ff", fn(params, block(body))))
+    # caller with its own variables; probes before and after the call
+    caller = fn([], block([assign("a", I(1)), assign("b", lst([I(3)])), PROBE("before", ["a", "b", "gone", "gtwo", "v"]),
+                           assign("r", use[0]) if use[0]["t"] != "assign" else use[0],
+                           PROBE("after", ["a", "b", "gone", "gtwo", "v"]), N("a")]))
+    items += [assign("cc", caller), call("cc")]
+    items += use
+    items += [lst([N("gone"), N("gtwo"), N("v")])]
+    return mk(ids, items, {"K": K, "A": A, "V": V, "flow": flow, "width": width})
+
+
+def c04_families(tier, seed, ids=None):
+    ids = ids or Ids()
+    rnd = random.Random(seed)
+    combos = list(itertools.product(["param", "local", "forvar", "shadow"], ["read", "write", "rw", "wr"],
+                                    ["direct", "closure1", "closure2", "recursion"], ["none", "down", "up", "array", "nested", "stored"], [1, 3, 130]))
+    if tier == "quick":
+        combos = rnd.sample(combos, 220)
+    ss = [c04_session(ids, *c) for c in combos]
+    out = [("scoping shapes", ss, ("value",))]
+    rs = gens.random_sessions(60 if tier == "quick" else 3000, seed, "c04", first_id=500000)
+    out.append(("random nestings", rs, ("value",)))
+    return out
+
+
+def c04_nontrivial(v):
+    return True
+
+
+c04_rule = ("scoping shapes: variable kind {param, local, for-variable, shadowed global} x access {read, write, read-then-write, write-then-read} x "
+            "{direct, one closure level, two levels, recursion} x function-value flow {none, passed down, returned up, returned in an array, in a nested array, "
+            "stored then called after unrelated deep calls} x locals per function {1, 3, 130}, with write probes of caller variables and globals before and after "
+            "each call; plus random closure-heavy sessions; every session is distinct by construction and non-trivial (a call happens while caller locals and globals are live)")
+
+
+# =============================================================== C05: no accepted program crashes the interpreter
+
+TYPED_ATOMS = {"I0": I(0), "I3": I(3), "IN": I(-2), "F": Fl(3, 1), "B": Bo(True), "S": St("ab"), "A": lst([I(1), I(2)]), "NIL": N("nn"), "FN": N("id")}
+ALL_BINOPS = ["+", "-", "*", "/", "%", "<", ">", "<=", ">=", "==", "!=", "&", "|", "&&", "||", "<<", ">>"]
+
+
+def sourced(kind, atom, name):
+    """returns (prelude items, expression, wrapper) placing atom behind an operand source"""
+    if kind == "const":
+        return [], atom
+    if kind == "global":
+        return [assign(name, atom)] if atom != N("nn") else [], (N(name) if atom != N("nn") else N("nn"))
+    if kind == "call":
+        return [], call("id", atom)
+    return [], atom
+
+
+def c05_families(tier, seed, ids=None):
+    ids = ids or Ids()
+    rnd = random.Random(seed)
+    out = []
+    ss = []
+    names = list(TYPED_ATOMS)
+    combos = []
+    for op in ALL_BINOPS:
+        for a in names:
+            for b in names:
+                combos.append((op, a, b))
+    srcs = [("const", "const"), ("global", "const"), ("const", "global"), ("call", "call"), ("global", "call")]
+    for (op, a, b) in combos:
+        for (sa, sb) in (srcs if tier == "thorough" else [srcs[hash((op, a, b, seed)) % len(srcs)]]):
+            pa, ea = sourced(sa, TYPED_ATOMS[a], "ga")
+            pb_, eb = sourced(sb, TYPED_ATOMS[b], "gb")
+            e = bin_(op, ea, eb)
+            items = [IDF] + pa + pb_ + [e, assign("lf", fn([], block([assign("la", ea), assign("lb", eb) if TYPED_ATOMS[b] != N("nn") else assign("lb", I(1)), bin_(op, N("la"), N("lb") if TYPED_ATOMS[b] != N("nn") else eb)]))), call("lf"),
+                                        assign("cf", fn([], block([assign("la", ea), assign("h", fn([], bin_(op, N("la"), eb))), call("h")]))), call("cf"), I(1)]
+            ss.append(mk(ids, items, {"op": op, "a": a, "b": b, "src": [sa, sb]}))
+    out.append(("binary operator x type pair x operand source", ss, ("nocrash",)))
+    us = []
+    for op in UNOPS:
+        for a in names:
+            x = TYPED_ATOMS[a]
+            us.append(mk(ids, [IDF, un(op, x), un(op, call("id", x)), bin_("+", un(op, x), I(1)) if True else x, I(1)], {"un": op, "a": a}))
+    for a in names:
+        for b in names:
+            x, z = TYPED_ATOMS[a], TYPED_ATOMS[b]
+            us.append(mk(ids, [IDF, ix1(x, z), ix2(x, z, I(1)), ix2(x, I(0), z), lst([x, z]), iff(x, z), wh(x, ret(z)), call("id", x, z) if False else call("id", x),
+                               assign("cl", x) if a != "NIL" else I(0), call("cl") if a != "NIL" else I(0), call("cl", z) if a != "NIL" else I(0), y(x), ret(z), I(1)], {"positions": [a, b]}))
+    out.append(("unary, index, slice, element, condition, call-target, arity positions", us, ("nocrash",)))
+    ex = []
+    extreme = [bin_("<<", I(1), I(64)), bin_("<<", I(1), I(-1)), bin_(">>", I(1), I(100)), bin_(">>", I(-1), I(1)), bin_("<<", I(-1), I(63)),
+               bin_("/", Fl(1, 0), Fl(0, 0)), bin_("/", Fl(0, 0), Fl(0, 0)), bin_("%", I(5), I(0)), bin_("/", I(5), I(0)),
+               {"t": "bigint", "txt": "9223372036854775807"}, bin_("+", {"t": "bigint", "txt": "9223372036854775807"}, I(1)),
+               bin_("/", bin_("-", un("-", {"t": "bigint", "txt": "9223372036854775807"}), I(1)), I(-1)),
+               bin_("%", bin_("-", un("-", {"t": "bigint", "txt": "9223372036854775807"}), I(1)), I(-1)),
+               bin_("*", {"t": "bigint", "txt": "4611686018427387904"}, I(4)),
+               ix1(St("ab"), {"t": "bigint", "txt": "9223372036854775807"}), ix2(lst([I(1)]), I(-1), {"t": "bigint", "txt": "9223372036854775807"}),
+               call("toa", bin_("/", Fl(1, 0), Fl(0, 0))), call("aton", St("1e999")), call("aton", St("9223372036854775808")), call("aton", St("-")),
+               call("fromto", I(0), Fl(5, 1)), call("elems", I(3)), call("indices", N("nn")), call("write"), call("toa", I(1), I(2)), call("read", I(1))]
+    for e in extreme:
+        ex.append(mk(ids, [e, I(1)], {"extreme": True}))
+    out.append(("extreme literals, shift counts, float specials, builtin misuse", ex, ("nocrash",)))
+    # every statement form as last statement of a function / loop body / while ending in return
+    forms = [I(1), assign("t", I(2)), iff(Bo(True), I(3)), iff(Bo(False), I(3)), ife(Bo(True), I(4), I(5)), wh(Bo(False), I(6)),
+             wh(Bo(True), ret(I(7))), fr(["w"], [call("fromto", I(0), I(2))], N("w")), fr(["w"], [call("fromto", I(0), I(2))], ret(N("w"))),
+             block([I(8), I(9)]), y(I(10)), ret(I(11)), fn([], I(12)), call("id", I(13)), lst([I(1), bin_("+", N("gx"), I(1))]),
+             iff(bin_(">", N("gx"), I(0)), iff(bin_(">", N("gx"), I(5)), ret(I(1)))), ife(bin_(">", N("gx"), I(0)), iff(bin_(">", N("gx"), I(5)), ret(I(1))), I(2))]
+    sf = []
+    for f in forms:
+        sf.append(mk(ids, [IDF, assign("gx", I(1)), assign("g", fn([], f)), call("g"),
+                           assign("gb", fn([], block([I(0), f]))), call("gb"),
+                           assign("gc", fn(["c"], block([assign("k", I(0)), wh(bin_("<", N("k"), I(2)), block([assign("k", bin_("+", N("k"), I(1))), f]))]))), call("gc", I(1)),
+                           assign("gd", fn([], fr(["q"], [call("fromto", I(0), I(2))], f))), call("gd"),
+                           assign("ge", fn(["c"], ife(N("c"), f, f))), call("ge", Bo(True)), call("ge", Bo(False)),
+                           assign("gf", fn(["c"], iff(N("c"), f))), call("gf", Bo(True)), call("gf", Bo(False)),
+                           f, block([f, I(0)]), I(1)], {"form": ps(f)[:40]}))
+    out.append(("statement forms in tail / body / branch positions", sf, ("nocrash",)))
+    nr = 300 if tier == "quick" else 12000
+    out.append(("random ill-typed sessions", gens.random_sessions(nr, seed, "c05", p_ill=0.25, first_id=600000), ("nocrash",)))
+    return out
+
+
+def c05_nontrivial(v):
+    return any(n["t"] in ("bin", "un", "ix1", "ix2", "call") for it in v.session["items"] if not it.get("perr") for n in walk(it))
+
+
+c05_rule = ("adversarial enumeration: 17 binary operators x 9x9 operand type pairs (incl. nil and function) x operand sources (constant, global, local, captured, call result); "
+            "unary/index/slice/array-element/condition/call-target/arity positions over all type pairs; extreme literals, shift counts, float specials, builtin misuse; "
+            "17 statement forms as tail of function / block / while body / for body / branches / top level; seeded random sessions with 25% type confusion. "
+            "non-trivial = contains an operator, index or call; verdict = the real run ends in a value or a documented runtime error (no panic, no hang, no abort)")
